@@ -166,6 +166,13 @@ func (h transactionsResourceHandler) Expand(_ common.ResourceQuery[any], propert
 	if property != "effectiveVolumes" {
 		return nil, nil, nil
 	}
+	// effective volumes are read from the moves history, which only exists (and only carries them) with these features
+	if !h.store.ledger.HasFeature(features.FeatureMovesHistory, "ON") {
+		return nil, nil, common.NewErrInvalidQuery("feature %s must be 'ON' to use effectiveVolumes", features.FeatureMovesHistory)
+	}
+	if !h.store.ledger.HasFeature(features.FeatureMovesHistoryPostCommitEffectiveVolumes, "SYNC") {
+		return nil, nil, common.NewErrInvalidQuery("feature %s must be 'SYNC' to use effectiveVolumes", features.FeatureMovesHistoryPostCommitEffectiveVolumes)
+	}
 
 	ret := h.store.db.NewSelect().
 		TableExpr(
